@@ -118,3 +118,21 @@ Proof.
   unfold round6. assert (X : t * 1 + (s - s) == t) by ring.
   rewrite (round_half_even_comp _ _ (Qmult_comp _ _ X _ _ (Qeq_refl 1000000))). reflexivity.
 Qed.
+
+(* ------------------------------------------------------------------ clauses of the property that the faithful model refutes (witnesses by computation;
+   the same inputs are replayed on the implementation by the witness programs of the listed findings) *)
+(* a yearly calendar grid whose stop is exactly two calendar years after a start that is not 1 January loses the stop *)
+Lemma year_grid_mid_year_refuted :
+  let tl := year_calendar_timeline (ord_of 2004 12 31) (ord_of 2006 12 31) 1 in
+  tl_npts tl = 2%nat /\ last (tl_dates tl) 0%Z <> ord_of 2006 12 31.
+Proof. vm_compute. split; [reflexivity|discriminate]. Qed.
+(* start + dur with a calendar start: stop = start + round(365.25 dur) days falls one day short of the grid point in a leap year: a single point *)
+Lemma date_start_plus_year_refuted : tl_npts (year_calendar_timeline (ord_of 2000 1 1) (ord_of 2000 1 1 + 365) 1) = 1%nat.
+Proof. vm_compute. reflexivity. Qed.
+(* a module in weeks starting at 2 on a sim in days starting at 0 is placed at day 2, 9, 16 ...: the start offset is not converted (week 2 is day 14) *)
+Lemma start_offset_not_converted_refuted : abstvec_numeric UWeek UDay [0; 1; 2]%Q 2 0 = [2.000000; 9.000000; 16.000000]%Q.
+Proof. vm_compute. reflexivity. Qed.
+(* on a month-unit calendar sim the sim's own axis counts months (0, 1, 2) while every module, even one with the sim's dates, is placed at days / 30.4375 *)
+Lemma month_sim_module_axis_refuted :
+  abstvec_days [ord_of 2000 1 1; ord_of 2000 2 1; ord_of 2000 3 1] (ord_of 2000 1 1) UMonth <> tvec_of 3 1.
+Proof. vm_compute. discriminate. Qed.
